@@ -24,8 +24,12 @@
 // C03_delegate_sound_ext: every use of its bits.SliceReader parameter is
 //   - the receiver of a call of one of the position-relative methods
 //     ReadUint8 ReadUint16 ReadInt16 ReadUint24 ReadUint32 ReadInt32 ReadUint64 ReadInt64 ReadBytes AccError            (any argument)
-//     ReadFixedLengthString SkipBytes ReadZeroTerminatedString ReadPossiblyZeroTerminatedString                          (argument
-//     provably in [0, 2^62): a constant, or built from len(..), conversions of unsigned 8/16/32-bit values, and + * / % >> & of such), or
+//     ReadFixedLengthString                                                                                              (any int argument)
+//     SkipBytes                (argument provably in [0, 2^62): a constant, or built from len(..), conversions of unsigned 8/16/32-bit
+//                               values, and + * / % >> & of such)
+//     ReadZeroTerminatedString ReadPossiblyZeroTerminatedString      (argument provably below 2^62, see sfRange: sums and differences of
+//                               such values, of hdr.payloadLen() (below 2^61 under the theorem's hypothesis on the buffer) and of local
+//                               int variables all of whose assignments are of this form; negative counts are harmless), or
 //   - an argument of a call of a function declared in the analysed packages whose corresponding parameter is itself
 //     relative (greatest fixpoint over the call graph; calls through interfaces or function values are NOT accepted).
 // Anything else (GetPos, SetPos, Length, NrRemainingBytes, RemainingBytes, LookAhead, storing or returning the reader,
@@ -496,6 +500,7 @@ type sfEq struct {
 	ia, ib *types.Info
 	m, rev map[types.Object]types.Object
 	swap   map[types.Object]types.Object
+	enc    bool // Encode <-> EncodeSW methods of the same receiver type, EncodeHeader <-> EncodeHeaderSW, EncodeContainer <-> EncodeContainerSW
 }
 
 func sfLocal(o types.Object) bool {
@@ -553,7 +558,23 @@ func (q *sfEq) ident(a, b *ast.Ident) bool {
 	if oa == ob {
 		return true
 	}
-	return q.swap != nil && q.swap[oa] == ob
+	if q.swap != nil && q.swap[oa] == ob {
+		return true
+	}
+	if q.enc {
+		fa, ok1 := oa.(*types.Func)
+		fb, ok2 := ob.(*types.Func)
+		if ok1 && ok2 && fa.Name()+"SW" == fb.Name() {
+			ra, rb := fa.Type().(*types.Signature).Recv(), fb.Type().(*types.Signature).Recv()
+			switch fa.Name() {
+			case "Encode":
+				return ra != nil && rb != nil && types.Identical(ra.Type(), rb.Type())
+			case "EncodeHeader", "EncodeContainer":
+				return ra == nil && rb == nil && fa.Pkg() == fb.Pkg() && fa.Pkg().Path() == sfModPath+"/mp4"
+			}
+		}
+	}
+	return false
 }
 
 func (q *sfEq) exprs(a, b []ast.Expr) bool {
@@ -1051,6 +1072,140 @@ func sfBits(info *types.Info, e ast.Expr) int {
 	return 64
 }
 
+// sfRange: exponents (lo, hi) such that -2^lo < e < 2^hi is certain for the int expression e, given that the body is shorter
+// than 2^61 bytes (hypothesis of C03_delegate_sound_ext), so that hdr.payloadLen() < 2^61; 99 = unknown.
+// Local variables are followed through ALL their assignments in the function (plain `=` / `:=` with one value per variable;
+// any other modification makes the variable unknown).
+func sfRange(info *types.Info, fd *ast.FuncDecl, e ast.Expr, depth int) (lo, hi int) {
+	const unk = 99
+	if depth > 6 {
+		return unk, unk
+	}
+	if b := sfBits(info, e); b < 64 {
+		return 0, b
+	}
+	if tv, ok := info.Types[e]; ok && tv.Value != nil {
+		if v, exact := constant.Int64Val(constant.ToInt(tv.Value)); exact && v < 0 && v > -(1<<40) {
+			return 40, 0
+		}
+		return unk, unk
+	}
+	max := func(a, b int) int {
+		if a > b {
+			return a
+		}
+		return b
+	}
+	switch x := e.(type) {
+	case *ast.ParenExpr:
+		return sfRange(info, fd, x.X, depth)
+	case *ast.CallExpr:
+		// hdr.payloadLen()
+		if se, ok := x.Fun.(*ast.SelectorExpr); ok && len(x.Args) == 0 && se.Sel.Name == "payloadLen" {
+			if tv, ok := info.Types[se.X]; ok && sfTypeIs(tv.Type, sfModPath+"/mp4", "BoxHeader") {
+				return 0, 61
+			}
+		}
+		// conversion between signed 64-bit integer types keeps the value
+		if len(x.Args) == 1 {
+			if ftv, ok := info.Types[x.Fun]; ok && ftv.IsType() {
+				atv, ok2 := info.Types[x.Args[0]]
+				if !ok2 {
+					return unk, unk
+				}
+				isS64 := func(t types.Type) bool {
+					b, ok := t.Underlying().(*types.Basic)
+					return ok && (b.Kind() == types.Int || b.Kind() == types.Int64)
+				}
+				if isS64(ftv.Type) && isS64(atv.Type) {
+					return sfRange(info, fd, x.Args[0], depth)
+				}
+			}
+		}
+		return unk, unk
+	case *ast.BinaryExpr:
+		alo, ahi := sfRange(info, fd, x.X, depth)
+		blo, bhi := sfRange(info, fd, x.Y, depth)
+		if alo == unk || blo == unk {
+			return unk, unk
+		}
+		switch x.Op {
+		case token.SUB: // lo/hi exponent 0: the value is >= 0 / <= 0
+			lo, hi := max(alo, bhi)+1, max(ahi, blo)+1
+			if blo == 0 {
+				hi = ahi
+			}
+			if bhi == 0 {
+				lo = alo
+			}
+			return lo, hi
+		case token.ADD:
+			lo, hi := max(alo, blo)+1, max(ahi, bhi)+1
+			if bhi == 0 {
+				hi = ahi
+			}
+			if blo == 0 {
+				lo = alo
+			}
+			return lo, hi
+		}
+		return unk, unk
+	case *ast.Ident:
+		v, ok := info.Uses[x].(*types.Var)
+		if !ok || v.IsField() || !sfLocal(v) || fd == nil || fd.Body == nil {
+			return unk, unk
+		}
+		if b, ok := v.Type().Underlying().(*types.Basic); !ok || (b.Kind() != types.Int && b.Kind() != types.Int64) {
+			return unk, unk
+		}
+		lo, hi, n, bad := 0, 0, 0, false
+		ast.Inspect(fd.Body, func(nd ast.Node) bool {
+			switch st := nd.(type) {
+			case *ast.AssignStmt:
+				for i, l := range st.Lhs {
+					id := sfIdent(l)
+					if id == nil || (info.Defs[id] != v && info.Uses[id] != v) {
+						continue
+					}
+					if (st.Tok != token.ASSIGN && st.Tok != token.DEFINE) || len(st.Lhs) != len(st.Rhs) {
+						bad = true
+						continue
+					}
+					l1, h1 := sfRange(info, fd, st.Rhs[i], depth+1)
+					lo, hi = max(lo, l1), max(hi, h1)
+					n++
+				}
+			case *ast.IncDecStmt:
+				if id := sfIdent(st.X); id != nil && info.Uses[id] == v {
+					bad = true
+				}
+			case *ast.UnaryExpr:
+				if id := sfIdent(st.X); st.Op == token.AND && id != nil && info.Uses[id] == v {
+					bad = true
+				}
+			case *ast.RangeStmt:
+				for _, kv := range []ast.Expr{st.Key, st.Value} {
+					if id := sfIdent(kv); id != nil && (info.Defs[id] == v || info.Uses[id] == v) {
+						bad = true
+					}
+				}
+			case *ast.ValueSpec:
+				for _, nm := range st.Names {
+					if info.Defs[nm] == v {
+						bad = true // `var x int [= e]`: not followed
+					}
+				}
+			}
+			return true
+		})
+		if bad || n == 0 {
+			return unk, unk
+		}
+		return lo, hi
+	}
+	return unk, unk
+}
+
 // analyse records, for parameter idx of fn, the offending uses and the callee parameters it is handed to
 func (r *sfRel) analyse(k sfParamKey) {
 	if r.seen[k] {
@@ -1102,9 +1257,16 @@ func (r *sfRel) analyse(k sfParamKey) {
 			r.methods[k][m] = true
 			switch {
 			case sfLocalAny[m]:
-			case sfLocalCount[m]:
+			case m == "ReadFixedLengthString": // any int count: an error-free read stayed inside the body
+			case m == "SkipBytes":
 				if len(call.Args) != 1 || !sfNonNegBounded(info, call.Args[0]) {
-					setBad(id.Pos(), "sr."+m+" with a count not provably in [0, 2^62)")
+					setBad(id.Pos(), "sr.SkipBytes with a count not provably in [0, 2^62)")
+				}
+			case sfLocalCount[m]:
+				if len(call.Args) != 1 {
+					setBad(id.Pos(), "sr."+m+" without a count")
+				} else if _, hi := sfRange(info, fd, call.Args[0], 0); hi > 62 {
+					setBad(id.Pos(), "sr."+m+" with a count not provably below 2^62")
 				}
 			default:
 				setBad(id.Pos(), "position-dependent method sr."+m)
@@ -1309,6 +1471,45 @@ func (w *sfWorld) encDelegating(fo *types.Func, encSW *types.Func) string {
 	return ""
 }
 
+// encTwin: Encode and EncodeSW are the same program up to local names, the writer, and the swaps of sfEq.enc
+func (w *sfWorld) encTwin(enc, encSW *types.Func) bool {
+	a, b := w.decls[enc], w.decls[encSW]
+	if a == nil || b == nil || a.Body == nil || b.Body == nil {
+		return false
+	}
+	ia, ib := w.infoOf[enc], w.infoOf[encSW]
+	q := &sfEq{w: w, ia: ia, ib: ib, m: map[types.Object]types.Object{}, rev: map[types.Object]types.Object{}, enc: true}
+	sa, sb := enc.Type().(*types.Signature), encSW.Type().(*types.Signature)
+	q.m[sa.Params().At(0)], q.rev[sb.Params().At(0)] = sb.Params().At(0), sa.Params().At(0)
+	if len(a.Recv.List) == 1 && len(b.Recv.List) == 1 && len(a.Recv.List[0].Names) == 1 && len(b.Recv.List[0].Names) == 1 {
+		ra, rb := ia.Defs[a.Recv.List[0].Names[0]], ib.Defs[b.Recv.List[0].Names[0]]
+		if ra != nil && rb != nil {
+			q.m[ra], q.rev[rb] = rb, ra
+		}
+	}
+	return q.stmts(a.Body.List, b.Body.List)
+}
+
+// oneCall: the body is `return F(recv, wr)` with F the package-level function mp4.name
+func (w *sfWorld) oneCall(fo *types.Func, name string, nargs int) bool {
+	fd, info := w.decls[fo], w.infoOf[fo]
+	if fd == nil || fd.Body == nil || len(fd.Body.List) != 1 {
+		return false
+	}
+	r, ok := fd.Body.List[0].(*ast.ReturnStmt)
+	if !ok || len(r.Results) != 1 {
+		return false
+	}
+	c, ok := r.Results[0].(*ast.CallExpr)
+	if !ok || len(c.Args) != nargs || !sfFuncIs(sfCallee(info, c), "mp4", name) {
+		return false
+	}
+	if len(fd.Recv.List) != 1 || len(fd.Recv.List[0].Names) != 1 || !sfIs(info, c.Args[0], info.Defs[fd.Recv.List[0].Names[0]]) {
+		return false
+	}
+	return sfIs(info, c.Args[1], fo.Type().(*types.Signature).Params().At(0))
+}
+
 // ---------------------------------------------------------------- facts
 type sfDecFact struct {
 	Key        string
@@ -1325,6 +1526,7 @@ type sfDecFact struct {
 
 type sfEncFact struct {
 	Type       string
+	Class      string // delegating | container | header | twin | separate
 	Delegating bool
 	WhyNot     string
 	Pos        string
@@ -1451,7 +1653,19 @@ func sfExtract(repo string) ([]sfDecFact, []sfEncFact, *sfWorld, error) {
 			continue
 		}
 		why := w.encDelegating(enc, encSW)
-		encs = append(encs, sfEncFact{Type: n, Delegating: why == "", WhyNot: why, Pos: w.pos(w.decls[enc].Pos())})
+		class := "delegating"
+		switch {
+		case why == "":
+		case w.oneCall(enc, "EncodeContainer", 2) && w.oneCall(encSW, "EncodeContainerSW", 2):
+			class, why = "container", ""
+		case w.oneCall(enc, "EncodeHeader", 2) && w.oneCall(encSW, "EncodeHeaderSW", 2):
+			class, why = "header", ""
+		case w.encTwin(enc, encSW):
+			class, why = "twin", ""
+		default:
+			class = "separate"
+		}
+		encs = append(encs, sfEncFact{Type: n, Class: class, Delegating: class == "delegating", WhyNot: why, Pos: w.pos(w.decls[enc].Pos())})
 	}
 	return decs, encs, w, nil
 }
@@ -1491,6 +1705,8 @@ func sfBool(b bool) string {
 
 var sfCoqClass = map[string]string{"delegating": "CDelegating", "container-twin": "CContainerTwin", "container-body": "CContainerBody", "separate": "CSeparate"}
 
+var sfCoqEncClass = map[string]string{"delegating": "EDelegating", "container": "EContainer", "header": "EHeader", "twin": "ETwin", "separate": "ESeparate"}
+
 func sfRenderCoq(decs []sfDecFact, encs []sfEncFact) []byte {
 	var b bytes.Buffer
 	b.WriteString("(* C03Facts.v -- GENERATED on every run of ./check C03 by `harness/c03 srcfacts` from the library sources in /repo\n")
@@ -1513,7 +1729,7 @@ func sfRenderCoq(decs []sfDecFact, encs []sfEncFact) []byte {
 	}
 	b.WriteString("].\n\nDefinition c03_encoder_facts : list encfact := [\n")
 	for i, f := range encs {
-		fmt.Fprintf(&b, "  mkenc %s %s", sfCoqString(f.Type), sfBool(f.Delegating))
+		fmt.Fprintf(&b, "  mkenc %s %s", sfCoqString(f.Type), sfCoqEncClass[f.Class])
 		if i+1 < len(encs) {
 			b.WriteString(";")
 		}
@@ -1548,7 +1764,7 @@ func cmdSrcFacts(repo, outPath string) int {
 			strings.Join(f.Methods, ","), f.RPos, f.SPos, f.WhyNot, f.WhyNotRel)
 	}
 	for _, f := range encs {
-		fmt.Fprintf(out, "ENC\t%s\t%v\t%s\t%s\n", f.Type, f.Delegating, f.Pos, f.WhyNot)
+		fmt.Fprintf(out, "ENC\t%s\t%s\t%s\t%s\n", f.Type, f.Class, f.Pos, f.WhyNot)
 	}
 	return 0
 }
